@@ -1,5 +1,6 @@
 import Copia.Driver.Util
 import Copia.Model.Meta
+import Copia.Model.Find
 namespace Copia.Driver.C19
 open Copia.Plan Copia.Meta Copia.Driver
 
@@ -53,6 +54,10 @@ def handle : List String → Option String
     let l ← unhexStr l
     let m := (parseRemoteMeta l.toList).map fun (k, v) => (String.ofList k, v)
     some (showMetaMap (m.mergeSort fun a b => pathLe a.1 b.1))
+  | ["render", p, size, secs, frac] => do
+    let p ← unhexStr p; let size ← size.toNat?; let secs ← parseInt secs
+    let e : Entry := { path := p.toList, size := size, secs := secs, frac := frac.toList }
+    some (hexStr (String.ofList (findPrintf (Copia.Gen.findPrintf.map Char.ofNat) e)))
   | _ => none
 
 end Copia.Driver.C19
